@@ -210,7 +210,7 @@ def programs(prep):
 
 
 def _eval_one(p):
-    runs, capped = qcheck.dfs_outcomes(p.src, gc="own", max_runs=40, want="ops,tracked")
+    runs, capped = qcheck.dfs_outcomes(p.src, gc="own", max_runs=128, want="ops,tracked")
     bad = []
     for script, r in runs:
         if r.crash or r.status() != "ok":
